@@ -40,3 +40,13 @@ func init() {
 	register("C04", ruleRowIndicators)
 	register("C12", ruleRowIndicators)
 }
+
+func init() {
+	register("C01", ruleQRTables, ruleGFConstruction("qr"))
+	register("C02", ruleDataMatrixTables, ruleGFConstruction("datamatrix"))
+	register("C03", ruleAztecTables, ruleGFConstruction("aztec"))
+	register("C04", rulePDF417Tables)
+	register("C12", ruleQRTables, ruleDataMatrixTables, rulePDF417Tables)
+	register("C13", ruleQRTables, ruleDataMatrixTables)
+	register("C17", ruleGFConstruction())
+}
